@@ -20,7 +20,7 @@ func init() {
 			"(3) writer, CRL builder, OCSP, cert/<serial>, ACME and tidy address revocation records through the same prefix value (revokedPath) and the same serial normalisation; OCSP reports Revoked whenever a record is found and never answers from a failed lookup; " +
 			"(4) an existing record returns the stored revocation before any write; " +
 			"(5) tidy deletes a revoked/ entry only across {entry nil, empty value, unparseable certificate and tidy_invalid_certs, NotAfter+buffer passed and tidy_revoked_certs}, judged on the certificate stored under the same serial; " +
-			"(6) the CRL builder turns every listed revocation record into a CRL entry (or fails), hands all of them to buildCRL, numbers each CRL with the counter it increments on the same path, never resets a counter, writes the CRL before reporting success and persists the counters after the CRLs were built.; " +
+			"(6) the CRL builder turns every listed revocation record into a CRL entry (or fails), hands all of them to buildCRL (the list built for an issuer set is append-only: no member's entries replace what was collected before), skips a record as 'an issuer's own certificate' only on equality of the complete certificate encodings (Raw of the parsed record vs Raw of a candidate issuer), numbers each CRL with the counter it increments on the same path, never resets a counter, writes the CRL before reporting success and persists the counters after the CRLs were built.; " +
 			"(8) the CRL builder attributes a revocation record to an issuer by subject match plus signature verification only — no other test lets the loop pass over a candidate issuer — accepts a recorded issuer only if it is still an issuer, and places every parsed record on an issuer's list or on the unassigned list (the one reviewed skip: the record is one of the issuers' own certificates).",
 		NotDecided: "CRL/OCSP signature validity; multi-issuer interleavings and other schedules; restart after a prefix of the storage writes (crash points); that normalizeSerial/serialFromBigInt compute matching strings (value level); expiry arithmetic.",
 		Run:        runC16,
@@ -1325,6 +1325,85 @@ func c16AppendRoots(v ssa.Value) []ssa.Value {
 	return out
 }
 
+// c16CertRawBase: v is a read of the Raw field (the complete DER encoding) of
+// an x509.Certificate; returns the certificate it is read from.
+func c16CertRawBase(v ssa.Value) (ssa.Value, bool) {
+	var fld, base ssa.Value
+	switch x := v.(type) {
+	case *ssa.UnOp:
+		fa, ok := x.X.(*ssa.FieldAddr)
+		if x.Op != token.MUL || !ok {
+			return nil, false
+		}
+		fld, base = fa, fa.X
+	case *ssa.Field:
+		fld, base = x, x.X
+	default:
+		return nil, false
+	}
+	fv := eng.FieldVar(fld)
+	if fv == nil || fv.Name() != "Raw" || fv.Pkg() == nil || fv.Pkg().Path() != "crypto/x509" {
+		return nil, false
+	}
+	if !strings.HasSuffix(strings.TrimPrefix(base.Type().String(), "*"), "crypto/x509.Certificate") {
+		return nil, false
+	}
+	return base, true
+}
+
+// c16Accumulator (R5): slice value v (as handed to a sink) is built up by
+// appending only: walking back through phis and append calls, every
+// assignment is append(<the value so far>, ...); the only other values are the
+// empty start (nil / a fresh make) entering from outside the loop that fills
+// it. Returns the number of appends, and the first offending assignment.
+func c16Accumulator(v ssa.Value) (appends int, bad string, badPos token.Pos) {
+	seen := map[ssa.Value]bool{}
+	var walk func(v ssa.Value, viaPhi *ssa.Phi, edge int)
+	fail := func(s string, p token.Pos) {
+		if bad == "" {
+			bad, badPos = s, p
+		}
+	}
+	walk = func(v ssa.Value, viaPhi *ssa.Phi, edge int) {
+		if v == nil || seen[v] {
+			return
+		}
+		switch x := v.(type) {
+		case *ssa.Phi:
+			seen[v] = true
+			for i, e := range x.Edges {
+				walk(e, x, i)
+			}
+			return
+		case *ssa.Call:
+			if b, ok := x.Call.Value.(*ssa.Builtin); ok && b.Name() == "append" && len(x.Call.Args) > 0 {
+				seen[v] = true
+				appends++
+				// the first operand must itself be the list so far (a phi or an append of it)
+				walk(x.Call.Args[0], nil, 0)
+				return
+			}
+		}
+		// a start value: empty, and entering from outside the loop the phi heads
+		_, isMake := v.(*ssa.MakeSlice)
+		if (eng.IsNilConst(v) || isMake) && viaPhi != nil {
+			pred := viaPhi.Block().Preds[edge]
+			if !viaPhi.Block().Dominates(pred) {
+				return
+			}
+			fail("the list is reset to "+eng.Expr(v)+" inside the loop that fills it", viaPhi.Pos())
+			return
+		}
+		pos := token.NoPos
+		if viaPhi != nil {
+			pos = viaPhi.Pos()
+		}
+		fail("the list is overwritten with "+eng.ExprDeep(v)+" (entries collected before are dropped)", pos)
+	}
+	walk(v, nil, 0)
+	return appends, bad, badPos
+}
+
 func c16Builder(c *eng.Ctx, V string) {
 	inPki := func(fn *ssa.Function) bool { return eng.InPkg(fn, "pki") }
 	// ---- getLocalRevokedCertEntries: every listed record becomes a CRL entry
@@ -1402,6 +1481,34 @@ func c16Builder(c *eng.Ctx, V string) {
 					"the loop over the revocation records can move on to the next record (or finish) without adding the current one to the per-issuer map or the unassigned bucket: a revoked serial would silently miss every CRL",
 					"every iteration appends to revokedCertsMap / unassignedCerts before continuing; only the issuer-certificate skip and error returns bypass it")
 				c.Floor(f, "issuer-certificate skip edge", len(skipIssuer), 1)
+				// what the skip compares: the whole encoding of the record's certificate with the whole
+				// encoding of an issuer certificate. Serial numbers are unique per issuer only, so any
+				// narrower comparison lets a leaf that shares a serial with some issuer drop off every CRL.
+				c.Clause("R5", "C16.6")
+				eqs := eng.Calls(f, `^bytes\.Equal$`)
+				if c.Floor(f, "bytes.Equal deciding the issuer-certificate skip", len(eqs), 1) {
+					for _, e := range eqs {
+						site := "issuer-certificate skip compares whole certificates"
+						a := e.Common().Args
+						if len(a) != 2 {
+							c.Undecided(f, site, e.Pos(), "bytes.Equal without two operands")
+							continue
+						}
+						b0, ok0 := c16CertRawBase(a[0])
+						b1, ok1 := c16CertRawBase(a[1])
+						if !ok0 || !ok1 {
+							c.Violation(f, site, e.Pos(), "the skip compares "+eng.ExprDeep(a[0])+" with "+eng.ExprDeep(a[1])+": both operands must be the Raw (complete DER) field of an x509.Certificate, anything narrower (serial, subject) also matches certificates that are not the issuer itself", nil)
+							continue
+						}
+						p0, _, _ := eng.OriginsMatch(b0, `^call:crypto/x509\.ParseCertificate#0$`)
+						p1, _, _ := eng.OriginsMatch(b1, `^call:crypto/x509\.ParseCertificate#0$`)
+						if p0 != p1 {
+							c.OK(f, site, e.Pos(), eng.Expr(a[0])+" vs "+eng.Expr(a[1]))
+						} else {
+							c.Violation(f, site, e.Pos(), "the skip compares "+eng.ExprDeep(a[0])+" with "+eng.ExprDeep(a[1])+": exactly one operand must be the certificate parsed from the record, the other a candidate issuer", nil)
+						}
+					}
+				}
 			}
 			// what is appended: the serial and time of the record read
 			c.Clause("R5", "C16.6")
@@ -1486,6 +1593,21 @@ func c16Builder(c *eng.Ctx, V string) {
 				c.OK(f, "entries handed to buildCRL", bc.Pos(), "assembled from revokedCertsMap[issuer] and unassignedCerts: "+strings.Join(rs, ", "))
 			} else {
 				c.Violation(f, "entries handed to buildCRL", bc.Pos(), "the revoked list given to buildCRL is assembled from "+strings.Join(rs, ", ")+"; it must draw on both revokedCertsMap and unassignedCerts (and nothing else)", nil)
+			}
+			// ... and it is an accumulator: each member of the issuer set adds to what the
+			// members before it (and the unassigned bucket) contributed, nothing replaces it
+			{
+				site := "entries handed to buildCRL are accumulated (append only)"
+				n, badAcc, badPos := c16Accumulator(a[4])
+				switch {
+				case badAcc != "":
+					if badPos == token.NoPos {
+						badPos = bc.Pos()
+					}
+					c.Violation(f, site, badPos, badAcc+": the CRL of an issuer set would miss the revocations of the other members / the unassigned certificates", nil)
+				case c.Floor(f, "appends building the list handed to buildCRL", n, 2):
+					c.OK(f, site, bc.Pos(), strconv.Itoa(n)+" appends, each onto the list so far; the empty start enters from outside the member loop")
+				}
 			}
 			// CRL number: a read of CRLNumberMap[id] that is incremented on the same path
 			c.Clause("R5", "C16.6")
